@@ -187,6 +187,16 @@ func (b *Buffer) ReadTime() time.Time {
 	if ts == 0 {
 		return time.Time{}
 	}
+	// time.Time counts nanoseconds in an int64 which covers the years
+	// 1677 to 2262. Values outside of this range are clamped to the
+	// smallest and the largest value (Part 6, 5.2.2.5).
+	const epoch, span = 116444736000000000, math.MaxInt64 / 100
+	if ts < epoch-span {
+		ts = epoch - span
+	}
+	if ts > epoch+span {
+		ts = epoch + span
+	}
 	// decode time in "100 nanosecond intervals since January 1, 1601" manner.
 	return time.Unix(0, int64((ts-116444736000000000)*100)).UTC()
 }
